@@ -48,6 +48,9 @@ type Event struct {
 	K       string   `json:"k"`
 	Req     int      `json:"req,omitempty"`
 	Results []Result `json:"results,omitempty"`
+	// Pos (bad-* events): the violating result is inserted at this position among
+	// the valid results of Results that share its response.
+	Pos int `json:"pos,omitempty"`
 }
 
 type Case struct {
@@ -100,6 +103,7 @@ type world struct {
 	resps                       int
 	bad                         bool
 	badKind                     string
+	unsure                      map[uint64]bool // ids answered in the same response as a violating result
 	recvStopped                 bool
 	reorder, grouped, splitAcks bool
 }
@@ -158,6 +162,18 @@ func (w *world) probe(when string) bool {
 	}
 	sort.Slice(got, func(i, j int) bool { return got[i] < got[j] })
 	want := w.modelPending()
+	if len(w.unsure) > 0 {
+		f := func(xs []uint64) []uint64 {
+			var out []uint64
+			for _, x := range xs {
+				if !w.unsure[x] {
+					out = append(out, x)
+				}
+			}
+			return out
+		}
+		got, want = f(got), f(want)
+	}
 	if fmt.Sprint(got) != fmt.Sprint(want) {
 		extra, missing := diff(got, want)
 		sig := "pending-set"
@@ -500,6 +516,51 @@ func runCase(c Case) *ev.Verdict {
 				m.Result = []*spb.AFTResult{{Id: did, Status: w.seq[did][len(w.seq[did])-1]}}
 				w.badKind = fmt.Sprintf("dup-terminal:%s:fib=%v", w.seq[did][len(w.seq[did])-1], c.FIB)
 			}
+			// valid results of other, pending operations that share the response with the
+			// violating one (before and/or behind it). Whether a client applies them is
+			// not specified: their ids leave the pending-set comparison.
+			if e.K != "bad-multi-field" && len(e.Results) > 0 {
+				var comp []*spb.AFTResult
+				maxReq := -1
+				for _, r := range e.Results {
+					ri, ok := reqOf[r.ID]
+					if !ok || ri > queued || w.done[r.ID] || len(w.seq[r.ID]) > 0 {
+						continue
+					}
+					stt := spb.AFTResult_Status(r.Status)
+					if !c.FIB && (stt == spb.AFTResult_FIB_PROGRAMMED || stt == spb.AFTResult_FIB_FAILED) {
+						continue
+					}
+					if ri > maxReq {
+						maxReq = ri
+					}
+					comp = append(comp, &spb.AFTResult{Id: r.ID, Status: stt})
+					if w.unsure == nil {
+						w.unsure = map[uint64]bool{}
+					}
+					w.unsure[r.ID] = true
+				}
+				if len(comp) > 0 {
+					if !w.st.WaitSent(2 + maxReq + 1) {
+						w.fail("request-missing", "%s: request %d never reached the server", when, maxReq)
+						return v
+					}
+					pos := e.Pos
+					if pos < 0 || pos > len(comp) {
+						pos = len(comp)
+					}
+					all := append([]*spb.AFTResult(nil), comp[:pos]...)
+					all = append(all, m.Result...)
+					all = append(all, comp[pos:]...)
+					m.Result = all
+					where := "last"
+					if pos < len(comp) {
+						where = "followed-by-valid"
+					}
+					// (not part of the signature: the known finding K1 is the same defect with or without companions)
+					v.Class("violating-result-in-batch:" + where)
+				}
+			}
 			w.st.Respond(m)
 			w.resps++
 			w.bad = true
@@ -644,7 +705,20 @@ func drawCase(rt *rapid.T) Case {
 			break
 		}
 		if step == badAt {
-			c.Events = append(c.Events, Event{K: []string{"bad-unknown-id", "bad-dup-terminal", "bad-multi-field"}[rapid.IntRange(0, 2).Draw(rt, "badkind")], Req: rapid.IntRange(0, 7).Draw(rt, "badvariant")})
+			be := Event{K: []string{"bad-unknown-id", "bad-dup-terminal", "bad-multi-field"}[rapid.IntRange(0, 2).Draw(rt, "badkind")], Req: rapid.IntRange(0, 7).Draw(rt, "badvariant")}
+			// the violating result may share its response with valid results of pending operations
+			if nc := rapid.IntRange(0, 3).Draw(rt, "companions"); nc > 0 && len(avail) > 0 {
+				perm := rapid.Permutation(avail).Draw(rt, "companion-pick")
+				seen := map[uint64]bool{}
+				for _, r := range perm {
+					if len(be.Results) < nc && !seen[r.ID] {
+						seen[r.ID] = true
+						be.Results = append(be.Results, r)
+					}
+				}
+				be.Pos = rapid.IntRange(0, len(be.Results)).Draw(rt, "bad-pos")
+			}
+			c.Events = append(c.Events, be)
 			continue
 		}
 		switch k := rapid.IntRange(0, 9).Draw(rt, "event"); {
